@@ -10,12 +10,13 @@ import (
 // LemmaResult is a stand-alone SMT goal (composition lemma over contract spec functions)
 // kept in /verif/lemmas/<name>.smt2 with header lines "; property: C19[,C09]" and "; expect: unsat|sat".
 type LemmaResult struct {
-	Name   string
-	Props  []string
-	Expect string
-	Script string
-	Ob     *Obligation
-	Err    string
+	Name    string
+	Props   []string
+	Expect  string
+	Script  string
+	Ob      *Obligation
+	Err     string
+	Decided bool // a syntactic side condition: already decided, nothing to solve
 }
 
 func lemmasFor(db *ContractDB, prop string) []*LemmaResult {
@@ -49,6 +50,9 @@ func lemmasFor(db *ContractDB, prop string) []*LemmaResult {
 }
 
 func solveLemma(l *LemmaResult, timeoutMs int, all bool) {
+	if l.Decided {
+		return
+	}
 	for i := range solvers {
 		s := &solvers[i]
 		ans, raw, secs := runSolver(s, l.Script, timeoutMs, 1)
